@@ -175,6 +175,12 @@ impl RelayConfig {
 pub struct ConnectionId(u64);
 
 impl ConnectionId {
+    /// Raw value, for the cfg(kani) verification harnesses only.
+    #[cfg(kani)]
+    pub(crate) fn verif_raw(&self) -> u64 {
+        self.0
+    }
+
     /// Returns a fresh, process-unique connection id.
     fn next() -> Self {
         static NEXT: AtomicU64 = AtomicU64::new(0);
